@@ -33,8 +33,8 @@ CHECKS = {
  "C12": dict(
   text="Bounded symbolic model checking of the real formats/json scanner through the public Document API: for ALL byte strings up to N "
        "bytes (4 quick, 6 thorough), with and without AllowTrailingNonSpaceCharacters, Check() accepts exactly RFC 8259 (reference "
-       "recursive-descent recogniser in the harness); and prefix-probes: every prefix of 10 corpus documents (all value kinds, "
-       "escapes, exponents, nesting) followed by K arbitrary bytes (1 quick, 2 thorough) and EOF, so every scanner state the "
+       "recursive-descent recogniser in the harness); and prefix-probes: every prefix of 11 corpus documents (all value kinds, "
+       "escapes incl. \\/, one- and two-digit exponents, nesting) followed by K arbitrary bytes (1 quick, 2 thorough) and EOF, so every scanner state the "
        "corpus reaches is crossed with every byte class and with end of input. On every accepted input: the lexeme stream is "
        "properly nested (harness-side stack), spans lie inside the content, the structural event list rebuilt from the stream "
        "(object/array begin-end, key spans, literal spans) equals the reference decoder's, and Len() is the end of the value.",
@@ -94,10 +94,12 @@ CHECKS = {
  "C17": dict(
   text="Bounded symbolic model checking of the real enum-rule scanner and the jschema enum constraint: (a) for ALL rule texts of up to N "
        "bytes (4 quick, 6 thorough) without annotation/comment introducers, and for all two-entry templates [V1, V2] (V: integer, float, "
-       "one/two-byte strings over letters, digits, dot, space, slash, strings with an escape, true, null): accepted iff a bracketed list "
+       "one/two-byte strings over letters, digits, dot, space, slash, the control byte 0x1F and DEL, strings with an escape, true, null): accepted iff a bracketed list "
        "of pairwise distinct scalars (same = equal decoded strings or identical non-string literals; \\/ vs / crossed), and Values() "
-       "lists the scalars in order with their kind - under both modelled map orders; (b) `X // {enum: @r}` with the rule file in three "
-       "layouts (plain, inline notes, multi-line note) gets the same verdict and the same Example() as `X // {enum: [V1, V2]}` for all "
+       "lists the scalars in order with their kind - under both modelled map orders; (a') `[ V1 , V2 ]` with or without a dangling comma "
+       "and with nothing / a line break / an inline annotation / a block annotation in each of the six gaps: accepted iff the list "
+       "without its annotations is well formed; (b) `X // {enum: @r}` with the rule file in six "
+       "layouts (plain, inline notes, multi-line note, empty and non-empty stand-alone annotations, empty inline annotations) gets the same verdict and the same Example() as `X // {enum: [V1, V2]}` for all "
        "X, V1, V2 from the holes.",
   note="Duplicate candidates involving \\u escapes or non-ASCII bytes are outside the reference (no claim); rule texts longer than the "
        "bounds and other annotation layouts are outside.",
@@ -107,9 +109,11 @@ CHECKS = {
        "thorough) with regexp.Compile as an uninterpreted validity predicate: a text that is not /-delimited (first byte '/', a later "
        "'/' preceded by an even number of backslashes) is rejected with a diagnostic, a delimited text is rejected only with the "
        "invalid-pattern code, and when accepted Len() is the delimited length and Pattern()/AST carry exactly the bytes between the "
-       "delimiters. Plus 22 concrete patterns x 3 trailers with the real regexp engine as host code: accepted iff the pattern "
-       "compiles, Example() is matched by the pattern; the rsoac struct keeps exactly the pattern; a regex schema registered as a user "
-       "type makes the referring schema accept exactly the matching strings (4 patterns x 7 candidates).",
+       "delimiters. Plus 32 concrete patterns (incl. matches that begin or end with a blank) x 3 trailers with the real regexp engine "
+       "as host code: accepted iff the pattern compiles, Example() is matched by the pattern; the rsoac struct keeps exactly the "
+       "pattern and its JSON text decodes to it (15 patterns incl. control bytes, DEL, HTML-sensitive and non-ASCII characters); a "
+       "regex schema registered as a user type makes the referring schema accept exactly the matching strings (12 patterns incl. "
+       "ones ending in an escaped delimiter x 16 candidates).",
   note="'Example() is matched by the pattern' for arbitrary patterns is outside the claim (reggen and regexp are host code, concrete "
        "inputs only); paths decided by the uninterpreted predicate are not replayed natively (counted in the evidence).",
   ref="DESIGN.md §4 C18"),
@@ -144,7 +148,7 @@ CHECKS = {
   text="Bounded symbolic model checking of Len(): 16 complete jschema root templates (object, array, string, number, literal, inline and "
        "multi-line annotated scalars incl. notes ending in '#', \\u escapes in the value and inside an annotation string, rules "
        "followed by a bare dash, @ref, @a | @b, annotated members) with symbolic scalars: Len(S) <= "
-       "len(S), S[:Len(S)] has the same verdict/code and AST, Len is idempotent on the prefix; and Len(S + newline(LF/CR/CRLF) + "
+       "len(S), S[:Len(S)] has the same verdict/code and AST, Len is idempotent on the prefix; and Len(S + optional trailing blanks + newline(LF/CR/CRLF) + "
        "optional indentation + c + rest) == Len(S) for every first byte c that is not a blank, '/' or '#' and every rest of up to 1/2 "
        "arbitrary bytes. The same boundary property for enum rules (5 templates) and JSON documents with the trailing-characters option.",
   note="The repository's test corpus is not replayed here; follow-up texts starting with blanks only are outside.",
